@@ -194,7 +194,9 @@ static void model_case_impl(Case& c, int l0pass, std::vector<std::string>* snaps
     bool soil_prefilled = use_soils && rng.coin(50);
     if (soil_prefilled) { for (auto& sr : soil_rasters) for (int a = 0; a < rows; a++) for (int b = 0; b < cols; b++) sr(a, b) = rng.coin(50) ? 0 : rng.in(1, 6); stats.add("soil_prefilled"); }
     if (use_soils) model.activate_soils(soil_rasters);
-    DRaster weather(rows, cols, 1.0);
+    DRaster weather(rows, cols, 1.0), weather_sd0(rows, cols, 0.0);
+    bool weather_dist = use_weather && rng.coin(35);
+    if (weather_dist) stats.add("weather_through_distribution_sd0");
     std::vector<DRaster> temperatures, survival_rates;
     for (int k = 0; k < 6; k++) {
         DRaster t(rows, cols, 0.0), sr(rows, cols, 1.0);
@@ -301,7 +303,11 @@ static void model_case_impl(Case& c, int l0pass, std::vector<std::string>* snaps
     for (unsigned step = 0; step < nsteps && !threw; step++) {
         if (use_weather) {
             for (int a = 0; a < rows; a++) for (int b = 0; b < cols; b++) { int w64 = rng.coin(15) ? 0 : (rng.coin(25) ? 64 : rng.in(0, 64)); weather(a, b) = w64 / 64.0; cur_w64[a * cols + b] = w64; }
-            model.environment().update_weather_coefficient(weather);
+            // a third of the weather cases supply the coefficients through the probabilistic path with a standard
+            // deviation of 0 (the draw returns the mean itself, C12_weather_degenerate): the same coefficients must then
+            // drive generation, establishment and the soil exactly as a given raster does
+            if (weather_dist) model.environment().update_weather_from_distribution(weather, weather_sd0, model.random_number_generator());
+            else model.environment().update_weather_coefficient(weather);
         }
         // scripted establishment uniforms for this step
         auto& est = model.random_number_generator().establishment();
